@@ -26,6 +26,9 @@ OBLIGATIONS = [
     "NanoVerif.C04.glyphName_legal",
     "NanoVerif.TrProofs.pop_flag_eq",
     "NanoVerif.TrProofs.default_quantization_eq",
+    "NanoVerif.C20.formats_classified",
+    "NanoVerif.C20.variable_formats",
+    "NanoVerif.C20.validate_ok_iff",
 ]
 DESIGN_REF = "DESIGN.md §5 C20"
 LEVEL_TEXT = ("Partial proof. Proved / kernel-decided (shared with C10): flag > file > default for every field; the writer, loader, constructor and flag "
@@ -458,6 +461,57 @@ def suite_formats(ctx, res, thorough):
                             {"site": "c20-observable", "observable": key, "build": r["name"].split(":")[0], "how": r["name"].split(":")[-1]})
 
 
+def vf_format_build(job):
+    """a two-master configuration whose colour format is `fmt` (given in the file or by flag), through the real CLI"""
+    import shutil
+    from harness import cli, common
+    from fontTools import ttLib
+
+    fmt, how = job
+    d = common.scratch_dir("c20vf")
+    try:
+        for k, nm in enumerate(("regular", "bold")):
+            a = 10 + 10 * k
+            cli.write_svgs(d / nm, {"emoji_u1f600.svg": f'<svg xmlns="http://www.w3.org/2000/svg" viewBox="0 0 100 100">'
+                                                        f'<path d="M{a},{a} L{a + 40},{a} L{a + 40},{a + 40} L{a},{a + 40} Z" fill="#FF0000"/></svg>'})
+        out_name = "VF.ttf"
+        toml = ['family = "VF"', f'output_file = "{out_name}"'] + ([f'color_format = "{fmt}"'] if how == "file" else [])
+        toml.append('[axis.wght]\nname = "Weight"\ndefault = 400')
+        for nm, w in (("regular", 400), ("bold", 700)):
+            toml.append(f'[master.{nm}]\nstyle_name = "{nm.title()}"\nsrcs = ["{nm}/*.svg"]\n[master.{nm}.position]\nwght = {w}')
+        (d / "vf.toml").write_text("\n".join(toml) + "\n")
+        args = ["--build_dir", d / "build"] + (["--color_format", fmt] if how == "flag" else []) + [d / "vf.toml"]
+        rc, out = cli.nanoemoji(args, d)
+        fp = d / "build" / out_name
+        tables = sorted(ttLib.TTFont(fp).keys()) if fp.exists() else None
+        return {"fmt": fmt, "how": how, "rc": rc, "tables": tables, "tail": out[-300:]}
+    finally:
+        shutil.rmtree(d, ignore_errors=True)
+
+
+def suite_vf_formats(ctx, res, thorough):
+    """`validate_ok_iff` / `variable_formats` on the real CLI: with several masters, an outline + COLR format builds a variable colour font; a bitmap
+    or OT-SVG format is rejected before anything is written (exit non-zero, no font) — never a font that lacks the colour table of its format."""
+    fmts = [("glyf_colr_1", "file"), ("picosvg", "file"), ("untouchedsvg", "flag"), ("cbdt", "file")]
+    if thorough:
+        fmts += [("picosvgz", "flag"), ("untouchedsvgz", "file"), ("sbix", "flag"), ("glyf_colr_0", "flag"), ("picosvg", "flag")]
+    with ThreadPoolExecutor(max_workers=6) as ex:
+        results = list(ex.map(vf_format_build, fmts))
+    colour_tables = {"COLR", "SVG ", "CBDT", "sbix"}
+    for r in results:
+        res.count(key=("vf-format", r["fmt"], r["how"]), nontrivial=True)
+        outline = r["fmt"].startswith(("glyf", "cff"))
+        res.stat("vf-format:" + ("outline" if outline else "rejected-kind"))
+        if outline:
+            if r["rc"] != 0 or not r["tables"] or "fvar" not in r["tables"] or ("colr" in r["fmt"] and "COLR" not in r["tables"]):
+                res.add_cex(f"a two-master {r['fmt']} configuration does not build a variable colour font", r, {"site": "c20-vf-format", "fmt": r["fmt"], "how": r["how"]})
+        elif r["rc"] == 0 or r["tables"] is not None:
+            has = sorted(colour_tables & set(r["tables"] or []))
+            res.add_cex(f"color_format={r['fmt']} ({r['how']}) with two masters: exit {r['rc']} and a font is written with colour tables {has} — the format's "
+                        "table is not in it; FontConfig.validate is documented to reject the combination", r,
+                        {"site": "c20-vf-format", "fmt": r["fmt"], "how": r["how"]})
+
+
 def suite_maximum_color_options(ctx, res, n):
     """options given to `maximum_color` (the other command-line entry point) must reach the tables it adds: `--bitmap_resolution N` decides both the
     size of the rendered bitmaps and the strike's ppem"""
@@ -496,22 +550,83 @@ def suite_maximum_color_options(ctx, res, n):
             shutil.rmtree(d, ignore_errors=True)
 
 
+def suite_validate_model(ctx, res, n):
+    """Tie for Model/ConfigValidate.lean (`formats_classified`, `variable_formats`, `validate_ok_iff`): the real FontConfig colour-format
+    properties and `validate()` against the model, on every documented format and on made-up format names, metrics around zero, clip-box steps
+    around 1, one or several masters."""
+    import dataclasses
+    from nanoemoji import config as nconfig
+
+    rng = ctx.rng
+    formats = list(nconfig._COLOR_FORMATS) + ["glyf_sbix", "cbdt_colr_1", "", "svg", "picosvg_z", "colr", "cff", "glyfcolr", "untouchedsvgz_1", "GLYF_COLR_1", "sbix_"]
+    ops, reals = [], []
+    fields = ["upem", "width", "ascender", "linegap", "version_major", "version_minor"]
+    for i in range(n):
+        fmt = formats[i % len(formats)] if i < 2 * len(formats) else rng.choice(formats)
+        vals = {f: rng.choice([0, 1, 5, 1000]) for f in fields}
+        kind = rng.choice(["ok", "ok", "neg", "neg2", "desc", "clipq", "vf"])
+        if kind in ("neg", "neg2"):
+            vals[rng.choice(fields)] = -rng.choice([1, 7])
+        if kind == "neg2":
+            vals[rng.choice(fields)] = -1
+        desc = rng.choice([1, 250]) if kind == "desc" else rng.choice([0, -1, -250])
+        clipq = rng.choice([0, -3]) if kind == "clipq" else rng.choice([None, None, 1, 2, 64])
+        nm = rng.choice([2, 3]) if (kind == "vf" or rng.random() < 0.3) else rng.choice([0, 1])
+        masters = tuple(nconfig.MasterConfig(f"M{k}", f"M{k}", f"m{k}.ufo", (), ()) for k in range(nm))
+        cfg = nconfig.FontConfig(color_format=fmt, descender=desc, clipbox_quantization=clipq, masters=masters, **vals)
+        preds = {"has_bitmaps": bool(cfg.has_bitmaps), "has_picosvgs": bool(cfg.has_picosvgs), "has_untouchedsvgs": bool(cfg.has_untouchedsvgs),
+                 "has_svgs": bool(cfg.has_svgs), "is_ot_svg": bool(cfg.is_ot_svg)}
+        try:
+            cfg.validate()
+            real = "ok"
+        except ValueError as e:
+            msg = str(e)
+            if "must be zero or positive" in msg:
+                real = "negative:" + msg.split("'")[1]
+            elif "descender" in msg:
+                real = "descender"
+            elif "clipbox_quantization" in msg:
+                real = "clipq"
+            elif "bitmap formats" in msg:
+                real = "vf-bitmap"
+            elif "OT-SVG" in msg:
+                real = "vf-otsvg"
+            else:
+                real = "other:" + msg[:60]
+        except AssertionError:
+            real = "sanity"
+        ops.append({"op": "validate-config", "names": fields, "vals": [str(vals[f]) for f in fields], "descender": str(desc),
+                    "clipq": None if clipq is None else str(clipq), "fmt": fmt, "masters": str(nm)})
+        reals.append((real, preds, kind))
+    for op, (real, preds, kind), m in zip(ops, reals, ctx.driver.run(ops)):
+        res.count(key=("validate", stable_hash(op)), nontrivial=real != "ok" or op["fmt"] not in ("glyf_colr_1",))
+        res.stat("validate:" + real.split(":")[0])
+        if m.get("preds") != preds:
+            res.add_tie_break("FontConfig colour-format properties vs Model/ConfigValidate predicates", {"fmt": op["fmt"]}, m.get("preds"), preds)
+        elif m.get("r") != real:
+            res.add_tie_break("FontConfig.validate vs Model/ConfigValidate.validate", op, m.get("r"), real)
+
+
 def run(ctx, res):
     nano.init()
     res.rule = ("CLI builds of a 2-source set (one single codepoint, one ZWJ sequence): base, and per option {flag, file, both with different values}; "
                 "quick samples 8 of 15 perturbations, thorough all; plus multi-config invocations for sampled option pairs and the two known-finding "
                 "pairs; non-trivial = every non-base build")
     suite_flow_model(ctx, res, ctx.budget(40, 300))
+    suite_validate_model(ctx, res, ctx.budget(120, 1500))
     suite_matrix(ctx, res, ctx.thorough)
     suite_pairs(ctx, res, ctx.budget(3, 9))
     suite_rerun(ctx, res, ctx.budget(3, 6))
     suite_maximum_color_options(ctx, res, ctx.budget(2, 4))
     suite_formats(ctx, res, ctx.thorough)
+    suite_vf_formats(ctx, res, ctx.thorough)
 
 
 def search(ctx, res, broken):
     nano.init()
     suite_flow_model(ctx, res, 200)
+    suite_validate_model(ctx, res, 300)
+    suite_vf_formats(ctx, res, True)
     suite_matrix(ctx, res, True)
 
 
